@@ -23,11 +23,27 @@ func FilterPublic(maddrs []multiaddr.Multiaddr) []multiaddr.Multiaddr {
 		if c == nil {
 			return false
 		}
-		switch c.Protocol().Code {
-		case multiaddr.P_IP4, multiaddr.P_IP6, multiaddr.P_IP6ZONE, multiaddr.P_IPCIDR:
-			return manet.IsPublicAddr(target) && !manet.IsIPUnspecified(target)
-		case multiaddr.P_DNS, multiaddr.P_DNS4, multiaddr.P_DNS6, multiaddr.P_DNSADDR:
-			return isPublicName(c.Value())
+		// The host of an address is usually its first component, but it need
+		// not be: what dials an address (libp2p-HTTP, for one) takes the host
+		// from an IP or DNS component wherever it stands. Every one of them
+		// has to be public.
+		for rest := target; rest != nil; {
+			var next multiaddr.Multiaddr
+			c, next = multiaddr.SplitFirst(rest)
+			if c == nil {
+				break
+			}
+			switch c.Protocol().Code {
+			case multiaddr.P_IP4, multiaddr.P_IP6, multiaddr.P_IP6ZONE, multiaddr.P_IPCIDR:
+				if !manet.IsPublicAddr(rest) || manet.IsIPUnspecified(rest) {
+					return false
+				}
+			case multiaddr.P_DNS, multiaddr.P_DNS4, multiaddr.P_DNS6, multiaddr.P_DNSADDR:
+				if !isPublicName(c.Value()) {
+					return false
+				}
+			}
+			rest = next
 		}
 		return true
 	})
@@ -46,7 +62,9 @@ func isPublicName(name string) bool {
 	if name == "localhost" || strings.HasSuffix(name, ".localhost") {
 		return false
 	}
-	if ip := net.ParseIP(strings.Trim(name, "[]")); ip != nil {
+	// (an IPv6 literal may carry a zone, which does not change what it is)
+	literal, _, _ := strings.Cut(strings.Trim(name, "[]"), "%")
+	if ip := net.ParseIP(literal); ip != nil {
 		ma, err := manet.FromIP(ip)
 		if err != nil {
 			return false
